@@ -112,7 +112,7 @@ def main():
         ],
         "checks": [],
         "not_applicable": [],
-        "notes": "All checks: ./check <ID> --tier quick|thorough [--replay file]; VERIF_SEED selects the seed. Known findings and repaired defects: KNOWN_FINDINGS.txt (never written at run time). Seeded defects and their detection matrix: seeded/ and seeded/RESULTS.md. See DESIGN.md section 10.",
+        "notes": "All checks: ./check <ID> --tier quick|thorough [--replay file]; VERIF_SEED selects the seed. Known findings and repaired defects: KNOWN_FINDINGS.txt (never written at run time). Seeded defects (six rounds, 360 changes) and their detection matrix: seeded/ and seeded/RESULTS.md; property-preserving changes used to probe for false alarms: benign/ and benign/RESULTS.md. See DESIGN.md section 10.",
     }
     done = built()
     for pid in sorted(T):
